@@ -339,7 +339,7 @@ def locate_crash(part, prop, tier, vseed, batch, session, open_entries):
 # --------------------------------------------------------------------------- check
 
 def write_replay(prop, vseed, v, script, minimised, orig_ops):
-    d = os.path.join(VERIF_DIR, "replays")
+    d = os.environ.get("VERIF_REPLAY_DIR") or os.path.join(VERIF_DIR, "replays")
     os.makedirs(d, exist_ok=True)
     f0 = v["failures"][0]
     name = "%s-%d-%d-%s.json" % (prop, vseed, v["index"], (v.get("digest") or "crash")[:8])
@@ -467,8 +467,9 @@ def check(prop, tier, spec, vseed, jobs, build_info, log=print):
             "wall_s": round(wall, 2),
             "violations": total["viol_count"],
         }
-        os.makedirs(os.path.join(VERIF_DIR, "evidence"), exist_ok=True)
-        with open(os.path.join(VERIF_DIR, "evidence", prop + ".json"), "w") as fh:
+        evdir = os.environ.get("VERIF_EVIDENCE_DIR") or os.path.join(VERIF_DIR, "evidence")
+        os.makedirs(evdir, exist_ok=True)
+        with open(os.path.join(evdir, prop + ".json"), "w") as fh:
             json.dump(ev, fh, indent=1, sort_keys=True)
             fh.write("\n")
 
